@@ -146,6 +146,8 @@ class World:
                 return {4: typing.Mapping, 5: typing.MutableMapping, 6: dict, 7: collections.abc.Mapping, 8: collections.abc.MutableMapping}[t[3]]
             return {0: Dict[kt, vt], 1: dict[kt, vt], 2: Mapping[kt, vt], 3: MutableMapping[kt, vt]}[t[3]]
         if k == "opt":
+            if len(t) > 2 and t[2] == 1:
+                return typing.Union[None, self.to_py(t[1])]       # None first: an equal type, spelled the other way round
             return Optional[self.to_py(t[1])]
         if k == "counter":
             import collections
@@ -394,7 +396,7 @@ def gen_type(w: World, depth: int, cid_limit: int, hashable=False, self_cid=None
         inner = sub()
         if inner[0] in ("opt", "any"):
             inner = ("prim", "int")
-        return ("opt", inner)
+        return ("opt", inner, rng.randrange(2))
     if r < 0.87 and p.get("newtype", True):
         inner = sub()
         if inner[0] in ("any", "opt", "lit", "annot"):
@@ -951,6 +953,7 @@ def grid_types(w: World):
             out.append(("dict", ("prim", "str"), inner, sp))
         if inner[0] not in ("opt", "any"):
             out.append(("opt", inner))
+            out.append(("opt", inner, 1))
         if inner[0] not in ("any", "opt", "lit", "annot"):
             out.append(("newtype", 30 + len(out) % 9, inner))
         if inner[0] not in ("annot", "any"):
